@@ -24,6 +24,8 @@ func pinned(t *testing.T, id, what string, c caseT) {
 	t.Helper()
 	hx.Journal(c)
 	var out outcomeT
+	noExclude = true
+	defer func() { noExclude = false }()
 	err, hung, panicked := hx.Guard(120*time.Second, func() error { return runCase(c, &out) })
 	if err == nil && !hung && !panicked {
 		sig, _ := c.classes(out)
@@ -67,4 +69,37 @@ func TestRegressChunkSizes(t *testing.T) {
 			DryRun:  chunk%2 == 0,
 		})
 	}
+}
+
+// More blobs than one listing page (1024): delete-unused must walk all pages
+func TestRegressBlobListingPages(t *testing.T) {
+	for _, junk := range []int{1023, 1024, 1025, 2100} {
+		pinned(t, "", "", caseT{
+			Shape: purgex.Shape{Repos: []int{1}, Leaves: []uint32{1024}},
+			Pre:   []purgex.Op{up(0, file("a", 0, 0, 1, 2), file("b", 300, 1)), up(0, file("c", 1, 0, 1)), {Kind: purgex.OpDelBundle, Repo: 0, Pick: 0}},
+			Chunk: 3, Parallel: 4, Junk: junk,
+			Between: []purgex.Op{up(0, file("n", 7, 2, 2))},
+		})
+	}
+}
+
+// More index chunks than one listing page (1024 chunk objects): thorough tier only
+func TestRegressChunkListingPages(t *testing.T) {
+	if !hx.Thorough() {
+		t.Skip("thorough tier only")
+	}
+	var ops []purgex.Op
+	for i := 0; i < 130; i++ {
+		// 4 distinct single-leaf files per bundle => 8 keys per upload
+		ops = append(ops, up(i%2,
+			purgex.File{Path: "a", C: purgex.Content{Tail: 10, TSeed: 4 * i}},
+			purgex.File{Path: "b", C: purgex.Content{Tail: 10, TSeed: 4*i + 1}},
+			purgex.File{Path: "d/c", C: purgex.Content{Tail: 10, TSeed: 4*i + 2}},
+			purgex.File{Path: "d/e", C: purgex.Content{Tail: 10, TSeed: 4*i + 3}}))
+	}
+	ops = append(ops, purgex.Op{Kind: purgex.OpSquash, Repo: 1, Keep: 64})
+	pinned(t, "", "", caseT{
+		Shape: purgex.Shape{Repos: []int{2}, Leaves: []uint32{1024}},
+		Pre:   ops, Chunk: 1, Parallel: 8,
+	})
 }
